@@ -44,3 +44,26 @@ package remote
 //@   ensures [inflight_kept] limitItem.MaxRequestsInflight != nil && local.GlobalMaxRequestsInflight != nil && 0 <= old(limitItem.MaxRequestsInflight.Max) && old(limitItem.MaxRequestsInflight.Max) <= local.GlobalMaxRequestsInflight.Max ==> result.MaxRequestsInflight.Max == old(limitItem.MaxRequestsInflight.Max)
 //@   ensures [qps] limitItem.MaxRequestsInflight == nil && limitItem.TokenBucket != nil && local.GlobalTokenBucket != nil && local.GlobalTokenBucket.QPS >= 0 ==> result.TokenBucket != nil && 0 <= result.TokenBucket.QPS && result.TokenBucket.QPS <= local.GlobalTokenBucket.QPS && result.TokenBucket.Burst == old(limitItem.TokenBucket.Burst)
 //@   ensures [rest] result.Name == limitItem.Name && result.Strategy == limitItem.Strategy
+
+// A reconfiguration that keeps the schema type keeps the limiter object (so the slots held by unfinished requests stay
+// counted, C05) and resizes it to the new parameters (C05, C06); only a type change, or the first sync, builds a new one.
+//@ const keptType = old(f.FlowControl) != nil && fcTypeOf(old(f.FlowControl)) == newType
+
+//@ func (*localWrapper).Sync props C05, C06
+//@   requires [cache] f.flowControlCache != nil
+//@   requires [acc] (schema.GlobalMaxRequestsInflight != nil ==> schema.MaxRequestsInflight != nil) && (schema.GlobalTokenBucket != nil ==> schema.TokenBucket != nil)
+//@   modifies *
+//@   ensures [unchanged_keeps_limiter] !defined(newType) ==> f.FlowControl == old(f.FlowControl) && fcsize == old(fcsize) && fcburst == old(fcburst)
+//@   ensures [same_type_keeps_limiter] defined(newType) ==> (keptType ==> f.FlowControl == old(f.FlowControl))
+//@   ensures [inflight_resized] defined(newType) ==> (keptType && newType == "MaxRequestsInflight" && schema.MaxRequestsInflight != nil ==> fcsize[f.FlowControl] == uint32(schema.MaxRequestsInflight.Max))
+//@   ensures [bucket_resized] defined(newType) ==> (keptType && newType == "TokenBucket" && schema.TokenBucket != nil ==> fcsize[f.FlowControl] == uint32(schema.TokenBucket.QPS) && fcburst[f.FlowControl] == uint32(schema.TokenBucket.Burst))
+
+// The configured global limit is always recorded, also while the limiter server is unavailable: SetLimit clamps every later
+// quota against m.max, so a limit change that arrives during an outage must not be dropped (C09).
+//@ func (*maxInflightWrapper).Resize props C09
+//@   requires [wf] m.FlowControl != nil
+//@   modifies m.reserve, m.max, fcsize[m.FlowControl], fcburst[m.FlowControl]
+//@   ensures [limit_recorded] m.max == int32(max)
+//@   ensures [reserve_recorded] m.reserve == max(int32(int32(max) * GlobalMaxInflightBurstPercent) / 100, GlobalMaxInflightBurstMinInflight)
+//@   ensures [outage_keeps_local] old(m.serverUnavailable) != 0 ==> fcsize == old(fcsize) && result
+//@   ensures [healthy_resizes] old(m.serverUnavailable) == 0 ==> fcsize[m.FlowControl] == uint32(m.reserve)
